@@ -203,6 +203,7 @@ def run(ctx):
     ctx.floor("R05.3", "text-dump flag labels", n_lab, 30)
     _derivations(ctx)
     _virtual_inference(ctx)
+    _default_base_access(ctx)
 
 
 def _contains(tree, node):
@@ -356,3 +357,86 @@ def _virtual_inference(ctx):
         n_sink[0] += 1
         ctx.ob("R05.5", key, ok, fd.loc(c), "%s() is %sdominated by the virtual-function inference on the class" % (nm, "" if ok else "NOT "))
     ctx.floor("R05.5", "method-recording calls in define_struct_type", n_sink[0], 2)
+
+
+def _default_base_access(ctx):
+    """R05.6: [class.access.base]/2 - without an access specifier a base is public when the class being defined uses the
+    class-key struct and private when it uses class.  Which bases are `accessible` (R05.4, R10.1's B clauses, the
+    builder's inherited-method export) all read Base::_vis as append_derivation stored it."""
+    from . import gates as G
+    db = ctx.db
+    ctx.rule("R05.6", "append_derivation gives an unspecified base access V_private iff the DERIVING class's own _type is T_class, V_public otherwise, on every path where the access was left unspecified")
+    fn = db.fn("CPPStructType::append_derivation")
+    pv = [p for p in fn.params if "CPPVisibility" in p["t"]]
+    if not pv:
+        ctx.broken("append_derivation: visibility parameter not found")
+    vis = pv[0]["d"]
+    asg = []
+    for x in fn.walk():
+        t = assigned_target(x)
+        if t and (local_ref(t[0]) or {}).get("d") == vis:
+            r = strip_casts(peel(t[1]))
+            nm = r.get("n", "").split("::")[-1] if r is not None and r.get("k") == "ref" else None
+            asg.append((x, nm))
+    ctx.floor("R05.6", "default-access assignments", len(asg), 2)
+
+    def own_key_is_class(want):
+        def holds(atom, truth):
+            c = G.cmp_atom(atom)
+            if not c:
+                return False
+            op, a, b = c
+            if not truth:
+                op = G.NEG[op]
+            for u, v in ((a, b), (b, a)):
+                u = strip_casts(peel(u))
+                v = strip_casts(peel(v))
+                if u is None or v is None or u.get("k") != "mem" or not u.get("n", "").endswith("CPPExtensionType::_type"):
+                    continue
+                base = strip_casts(peel(u.get("b")))
+                if base is None or base.get("k") != "this":
+                    continue   # somebody else's class-key (e.g. the base's)
+                if v.get("k") == "ref" and v.get("n", "").split("::")[-1] == "T_class":
+                    return (op == "==") == want
+                if v.get("k") == "ref" and v.get("n", "").split("::")[-1] == "T_struct":
+                    return (op == "==") != want
+            return False
+        return holds
+
+    def unspecified(atom, truth):
+        c = G.cmp_atom(atom)
+        if not c:
+            return False
+        op, a, b = c
+        if not truth:
+            op = G.NEG[op]
+        for u, v in ((a, b), (b, a)):
+            if (local_ref(u) or {}).get("d") == vis and v is not None and strip_casts(v).get("k") == "ref" and strip_casts(v).get("n", "").endswith("V_unknown"):
+                return op == "=="
+        return False
+    e_unspec = G.edges_where(fn, unspecified)
+    for x, nm in asg:
+        if nm not in ("V_private", "V_public"):
+            ctx.ob("R05.6", "append_derivation|default|other", False, fn.loc(x), "unexpected default access: %s" % show(x))
+            continue
+        want_class = nm == "V_private"
+        ok1 = G.gated(fn, x, G.edges_where(fn, own_key_is_class(want_class)))
+        ok2 = G.gated(fn, x, e_unspec)
+        ctx.ob("R05.6", "append_derivation|%s|own-class-key" % nm, ok1, fn.loc(x),
+               "`%s` is %sdecided by the deriving class's own class-key (this->_type %s T_class)" % (show(x), "" if ok1 else "NOT ", "==" if want_class else "!="))
+        ctx.ob("R05.6", "append_derivation|%s|only-when-unspecified" % nm, ok2, fn.loc(x), "`%s` happens only when no access specifier was written" % show(x))
+    # every unspecified access gets a default before the base is recorded
+    pushes = [c for c in fn.walk() if c.get("k") == "call" and callee_short(c) == "push_back" and (field_of(c.get("this")) or "").endswith("_derivation")]
+    if not pushes or not e_unspec:
+        ctx.broken("append_derivation: push_back on _derivation or the `vis == V_unknown` test not found")
+    cfg = fn.cfg
+    ablocks = [cfg.locate(x)[0] for x, _ in asg if cfg.locate(x) is not None]
+    reach = set()
+    for (b, i) in e_unspec:
+        s0 = cfg.blocks[b].succs[i]
+        if s0 is not None:
+            reach |= cfg.reachable(s0, cut_blocks=ablocks)
+    for pcall in pushes:
+        ok = cfg.locate(pcall)[0] not in reach
+        ctx.ob("R05.6", "append_derivation|always-defaulted", ok, fn.loc(pcall),
+               "the base is %srecorded with an unspecified access on some path" % ("never " if ok else ""))
